@@ -131,7 +131,7 @@ class StlPastifier(LtlPastifier, StlAstVisitor):
         begin, end = self.bounds(node)
         node = TimedHistorically(child_node, Interval(begin, end))
         if horizon > 0:
-            node = TimedOnce(child_node, Interval(horizon, horizon))
+            node = TimedOnce(node, Interval(horizon, horizon))
         return node
 
     def visitTimedSince(self, node, *args, **kwargs):
